@@ -1212,6 +1212,109 @@ fn main() {
             c.count(&format!("wall_ms|{}|{}", sp.api.name(), pr.path), t.elapsed().as_millis() as u64);
         });
     }
+    // H. generations of one archive path: the archive is rebuilt in place (the builder renames a new file over the old one)
+    // between parallel calls of the same process; every call opens the path afresh and must answer like a sequential
+    // reader opened at the same moment — whatever earlier calls on the same worker threads have seen.
+    let gen_base = specs.len() as u64;
+    let gen_specs: [(&str, usize); 8] = [("extract_files_parallel", 0), ("extract_files_parallel", 7), ("process_files_parallel", 0), ("process_files_parallel", 3),
+        ("extract_files_batched", 0), ("extract_matching_parallel", 0), ("extract_with_config", 0), ("extract_with_config", 3)];
+    for (gi, &(api, threads)) in gen_specs.iter().enumerate() {
+        let idx = gen_base + gi as u64;
+        if !run.want(idx) || (run.args.only.is_none() && mix(idx) % stride != 0) {
+            continue;
+        }
+        let mut rng = run.rng(idx, 0);
+        let path = dir.join(format!("c09-gen-{idx}.mpq"));
+        let class = format!("{api}|generations-at-one-path|t{threads}");
+        let desc = json!({"interface": api, "threads": threads, "what": "3 generations built at one path (changed contents, added and removed names); after each build: fresh ParallelArchive::open + call, compared slot by slot with a fresh sequential reader"});
+        run.case(idx, &class, desc, |c| {
+            let pool = if threads > 0 { rayon::ThreadPoolBuilder::new().num_threads(threads).build().ok() } else { None };
+            let mut previous: HashMap<String, Vec<u8>> = HashMap::new();
+            for generation in 0..3usize {
+                let n = 160 + 60 * generation;
+                let mut b = ArchiveBuilder::new().listfile_option(ListfileOption::Generate);
+                let mut names: Vec<String> = Vec::new();
+                for k in 0..n {
+                    if generation > 0 && k % 11 == generation {
+                        continue; // removed in this generation
+                    }
+                    let name = format!("gen\\file_{k:04}.bin");
+                    let len = 200 + (k * 37 + generation * 1013) % 9000;
+                    let mut data = gen_content(&mut rng, if k % 3 == 0 { "text" } else { "half" }, len);
+                    data.extend_from_slice(format!("|g{generation}|{k}").as_bytes());
+                    b = b.add_file_data_with_options(data, &name, if k % 2 == 0 { 0x02 } else { 0x00 }, false, 0);
+                    names.push(name);
+                }
+                if let Err(e) = b.build(&path) {
+                    c.inconclusive(format!("fixture build failed: {e}"));
+                    return;
+                }
+                let mut seq = match Archive::open(&path) {
+                    Ok(a) => a,
+                    Err(e) => {
+                        c.inconclusive(format!("sequential open failed: {e}"));
+                        return;
+                    }
+                };
+                let mut want: Vec<(String, Vec<u8>)> = Vec::new();
+                for nm in &names {
+                    match seq.read_file(nm) {
+                        Ok(d) => want.push((nm.clone(), d)),
+                        Err(e) => {
+                            c.inconclusive(format!("sequential read failed: {e}"));
+                            return;
+                        }
+                    }
+                }
+                let refs: Vec<&str> = names.iter().map(|s| s.as_str()).collect();
+                let got: Result<Result<Vec<(String, Vec<u8>)>, Error>, vh_common::PanicInfo> = trap(|| {
+                    if api == "extract_with_config" {
+                        let mut cfg = ParallelConfig::default();
+                        cfg.num_threads = if threads > 0 { Some(threads) } else { None };
+                        cfg.batch_size = 16;
+                        cfg.skip_errors = false;
+                        return extract_with_config(&path, &refs, cfg).and_then(|v| v.into_iter().map(|(n, r)| r.map(|d| (n, d))).collect());
+                    }
+                    let pa = ParallelArchive::open(&path)?;
+                    in_pool(pool.as_ref(), || match api {
+                        "extract_files_parallel" => pa.extract_files_parallel(&refs),
+                        "extract_files_batched" => pa.extract_files_batched(&refs, 16),
+                        "extract_matching_parallel" => pa.extract_matching_parallel(|n| n.starts_with("gen")),
+                        _ => pa.process_files_parallel(&refs, |name, data| Ok((name.to_string(), data))),
+                    })
+                });
+                c.count("generation_calls", 1);
+                match got {
+                    Err(p) => {
+                        c.violate(format!("panic|{api}|generations|{}", p.sig()), format!("{api} panicked on generation {generation}: {}", p.msg), json!({"generation": generation}));
+                        return;
+                    }
+                    Ok(Err(e)) => {
+                        c.violate(format!("generation-call-fails|{api}|{}", variant(&e)), format!("{api} on a freshly opened generation {generation} (all requested names present for a sequential reader) failed: {e}"), json!({"generation": generation, "threads": threads}));
+                        return;
+                    }
+                    Ok(Ok(v)) => {
+                        if v.len() != want.len() {
+                            c.violate(format!("generation-slot-count|{api}"), format!("{api}: {} results for {} requested names (generation {generation})", v.len(), want.len()), json!({"generation": generation}));
+                            return;
+                        }
+                        for (k, ((gn, gd), (wn, wd))) in v.iter().zip(&want).enumerate() {
+                            c.count("generation_slots_compared", 1);
+                            if gn != wn || gd != wd {
+                                let stale = previous.get(wn).map(|p| p == gd).unwrap_or(false);
+                                let kind = if gn != wn { "name-order" } else if stale { "bytes-of-an-earlier-generation" } else { "bytes-differ-from-sequential" };
+                                c.violate(format!("generation-mismatch|{api}|{kind}"), format!("{api}: slot {k} ({wn}) of generation {generation} is not what a sequential reader of the same file returns ({kind})"),
+                                    json!({"generation": generation, "slot": k, "name": wn, "threads": threads, "got": brief(gd), "want": brief(wd)}));
+                                return;
+                            }
+                        }
+                    }
+                }
+                previous = want.into_iter().collect();
+            }
+            let _ = std::fs::remove_file(&path);
+        });
+    }
     stop.store(true, Ordering::Relaxed);
     for h in stress {
         let _ = h.join();
